@@ -281,6 +281,39 @@ def c19(run):
                        distinct_nontrivial=executed)
 
 
+STREAM = {"S1", "S2", "S3", "S4", "S5", "S6", "S7", "S8"}
+
+
+def c18(run):
+    binary = vlib.build()
+    mc_volcano(run)
+    quick = run.tier == "quick"
+    scs = all_scenarios(run, 150, 4000)
+    scs += vlib.generate(run, "Gen_WF", gen_cfg(run.tier, run.seed, 1, ["EmitWF"]), "wf", fam="C18")
+    scs += vlib.gen_random(run, binary, "compose", 300 if quick else 8000, "C18")
+    chunks = max(1, min(vlib.NCPU // 2, len(scs) // 100))
+    traces = vlib.replay(run, binary, "stream", scs, "st", chunks=chunks)
+    viols, stats = vlib.validate(run, "StreamTrace", traces, "st", extra_constants=" B = 10")
+    st = sum_stats(stats)
+    hdr = headers_of(traces, {v[0] for v in viols})
+    attribute(run, viols, hdr, lambda clause, fam: ["C18"] if clause in STREAM else [])
+    # the results of the four modes must agree (S1: list requested first or not)
+    sst = session_validate(run, traces, lambda clause, fam: ["C18"] if clause == "Agree" else (["C13"] if clause == "ProcessDead" else []), name="ss")
+    run.cov["stream_stats"] = st
+    run.cov["traces_validated_against_impl"] = st.get("plans", 0)
+    if st.get("nexts", 0) == 0 or st.get("ops", 0) == 0:
+        raise Infra("vacuous run: no operator event recorded (hook H1 not active?)")
+    return vlib.finish(run, "model_checking",
+                       rule=("Volcano.tla model-checked (stream contract and alignment on every edge of every topology). Every operator of "
+                             "every physical plan built for the scenarios of all query generators (TLC), Gen_WF and random ones is wrapped at "
+                             "the exported operator interface (hook H1, reflection over all operator fields) and executed in four modes "
+                             "(passive, Series() first on every operator, one extra Next() after every end, seeded yields/sleeps at every "
+                             "call); TLC validates clauses S1-S8 of StreamTrace.tla on every Series/Next event and SessionTrace.tla checks "
+                             "that the four modes return the same result. distinct_nontrivial = operator instances observed."),
+                       assumptions=["event order = global atomic sequence numbers taken at call entry and return", "batch size B = 10 (stepsBatch)"],
+                       distinct_nontrivial=st.get("ops", 0))
+
+
 def c07(run):
     binary = vlib.build()
     mc_volcano(run)
@@ -304,4 +337,4 @@ def c07(run):
                        distinct_nontrivial=st.get("obs", 0) - st.get("keys", 0))
 
 
-RECIPES = {"C01": c01, "C07": c07, "C19": c19, "C02": c02, "C03": c03, "C04": c04, "C05": c05, "C06": c06}
+RECIPES = {"C01": c01, "C07": c07, "C18": c18, "C19": c19, "C02": c02, "C03": c03, "C04": c04, "C05": c05, "C06": c06}
